@@ -200,7 +200,7 @@ fn pack(ty: Option<NumTy>, decls: Vec<RangeDecl>, render_counts: &[Num], fk_coun
 }
 
 pub fn run(tier: Tier) -> i32 {
-    let rep = Reporter::new("C04", "L1", tier);
+    let rep = Reporter::new("C04", &engine_name("L1"), tier);
     let scratch = Scratch::new("c04");
     let keys_total = Mutex::new(0u64);
     let mut jobs: Vec<Job> = vec![];
